@@ -11,7 +11,7 @@ import (
 // C15: labels are exported or local exactly as written or as documented by default.
 
 func expectedScopes(f *File) (user map[string]bool, invented map[string]string) {
-	user = map[string]bool{}      // label -> must be global
+	user = map[string]bool{}       // label -> must be global
 	invented = map[string]string{} // label -> kind (must be local)
 	def := func(scope string, defGlobal bool) bool {
 		switch scope {
